@@ -53,9 +53,13 @@ def _renumber(rng, nv, elems_lists):
     return perm, [[[perm[v] for v in el] for el in L] for L in elems_lists]
 
 
-def gen_polyline(rng, big=False):
+def gen_polyline(rng, big=False, long=False):
     n = rng.choice([1, 2, 3, 4, 5, 6, 8, 10, 12] + ([20, 30] if big else []))
     style = rng.choice(["sparse", "path", "cycle", "dense", "empty", "two"])
+    if long:
+        # more than 256 elements: indices beyond the small-integer cache, roots and ids that do not fit 8 bits
+        n = rng.choice([270, 300, 330])
+        style = rng.choice(["path", "cycle", "two"])
     pairs = [(a, b) for a in range(n) for b in range(a + 1, n)]
     E = []
     if style == "path":
@@ -151,6 +155,8 @@ def gen_surface(rng, big=False):
     # isolated vertices
     for _ in range(rng.choice([0, 0, 0, 1, 2])):
         V.append([rng.randint(40, 50), rng.randint(0, 5), 0])
+    if rng.random() < 0.3:
+        F = [list(reversed(f)) for f in F]          # the whole surface with the other (clockwise) orientation
     F = [f[k:] + f[:k] for f in F for k in [rng.randrange(len(f))]]
     rng.shuffle(F)
     perm, (F,) = _renumber(rng, len(V), [F])
@@ -254,6 +260,7 @@ def gen_volume(rng, big=False):
         ren = {v: i for i, v in enumerate(used)}
         V = [V[v] for v in used]
         C = [[ren[v] for v in c] for c in C]
+    C = [rng.sample(c, 4) if len(c) == 4 else c for c in C]     # tetrahedra in any vertex order / orientation
     rng.shuffle(C)
     perm, (C,) = _renumber(rng, len(V), [C])
     V2 = [None] * len(V)
@@ -284,7 +291,7 @@ def gen_case(rng, big=False):
     # edges / faces; ids that do not exist are harmless members of the set
     max_eid = len(mesh["E"]) + sum(len(f) for f in mesh["F"]) + sum(6 if len(c) == 4 else 12 for c in mesh["C"]) + 3
     max_fid = nf + sum(4 if len(c) == 4 else 6 for c in mesh["C"]) + 2
-    dens = rng.choice([None, 0.0, 0.1, 0.3, 0.6])
+    dens = rng.choice([None, 0.0, 0.1, 0.3, 0.6, 1.0])
 
     def excl(maxid):
         if dens is None:
@@ -319,6 +326,12 @@ def gen_case(rng, big=False):
             else:
                 vals = [rng.randint(-20, 60) / 4.0 for _ in range(m)]
             w = {"as": mode, "values": vals}
+            # stored as python float / int / numpy float32 / float64, under numpy keys, scaled by a power of two
+            # (1e-7 .. 1e39: the minimum forests do not depend on the scale)
+            w["num"] = rng.choice(["float", "float", "float32", "float64"] + (["int"] if style != "dyadic" else []))
+            w["np_keys"] = mode == "dict" and rng.random() < 0.3
+            if w["num"] != "int":
+                w["scale_exp"] = rng.choice([0, 0, -23, 100 if w["num"] == "float32" else 130])
         case.update(op="kruskal", kind="edge", root=rng.randrange(nv), avoid_boundary=rng.random() < 0.35, weights=w)
     # every accessor is read twice, in an order chosen here
     case["read_order"] = rng.randrange(12)
@@ -336,6 +349,14 @@ def gen_case(rng, big=False):
     elif r < (0.7 if what == "kruskal" else 0.2):
         case["pre"] = {"preset_length": [rng.choice([0.0, 1.0, 2.5, -3.0, 100.0, 7.25]) for _ in range(17)],
                        "dense": rng.random() < 0.5}
+    # call form and argument representations: positional / keyword / mixed; exclusion set of python or numpy integers or
+    # a frozenset; avoid_boundary as bool / numpy.bool_ / 0-1
+    case["call_form"] = rng.choice(["mixed", "pos", "kw"])
+    case["excl_repr"] = rng.choice(["set", "set", "np", "frozen"])
+    case["flag_repr"] = rng.choice(["bool", "bool", "np", "int"])
+    if rng.random() < 0.06:
+        # degenerate geometry with valid combinatorics: all vertices at one point (every edge has length zero)
+        case["mesh"] = dict(case["mesh"], V=[[3, 1, 2] for _ in case["mesh"]["V"]])
     # compute() / __call__ may be called again on the same object: the tables must be those of one computation
     case["calls"] = rng.choice([1, 1, 1, 2, 2, 3])
     if case["op"] in ("tree", "kruskal") and rng.random() < 0.06:
@@ -369,7 +390,13 @@ def gen_session(rng):
         what = rng.choice(ops)
         omit = rng.random() < 0.5
         dens = rng.choice([0.1, 0.3, 0.6])
+        if rng.random() < 0.25:
+            # the mesh is edited between two objects: vertices move
+            newV = [[rng.randint(-6, 6), rng.randint(-6, 6), rng.randint(-3, 3)] for _ in mesh["V"]]
+            steps.append({"do": "move", "mesh_id": mid, "V": newV})
         sub = {"mesh_id": mid, "what": what, "read_order": rng.randrange(12), "calls": rng.choice([1, 1, 2]),
+               "call_form": rng.choice(["mixed", "pos", "kw"]), "excl_repr": rng.choice(["set", "np"]),
+               "flag_repr": rng.choice(["bool", "np", "int"]),
                "root_repr": rng.choice(ROOT_REPRS),
                "omit_optional": omit, "excl": None}
         if what.endswith("_tree"):
@@ -399,6 +426,7 @@ def gen_session(rng):
         if rng.random() < 0.5:
             steps.append({"do": "reconf", "obj": rng.randrange(nobj), "root": rng.randrange(1000), "read_order": rng.randrange(12),
                           "spelling": rng.choice(["call", "call", "compute"]), "root_repr": rng.choice(ROOT_REPRS),
+                          "fail_first": rng.random() < 0.3,
                           "ids": sorted(rng.sample(range(max(max_eid, max_fid)), min(max(max_eid, max_fid), rng.choice([0, 1, 4, 10]))))})
     return {"op": "session", "kind": "session", "what": "session", "mesh": meshes[0], "meshes": meshes, "steps": steps}
 
@@ -418,10 +446,18 @@ def expand_sessions(cases, obs):
             out_o.append(o if "crash" in o else {"op": "session", "kind": "session", "crash": "session returned %d results for %d steps" % (len(o.get("results", [])), len(rsteps))})
             continue
         current = []
-        for k, (st, r) in enumerate(zip(rsteps, o["results"])):
+        cur_V = [m["V"] for m in c["meshes"]]
+        k = -1
+        for st in c["steps"]:
+            if st["do"] == "move":
+                cur_V[st["mesh_id"]] = st["V"]
+                continue
+            if st["do"] not in ("build", "reconf"):
+                continue
+            k += 1
+            r = o["results"][k]
             if st["do"] == "build":
                 cc = dict(st["case"])
-                cc["mesh"] = c["meshes"][cc["mesh_id"]]
                 current.append(cc)
             else:
                 if r.get("skipped"):
@@ -432,6 +468,7 @@ def expand_sessions(cases, obs):
                     cc["root"] = r["update"]["root"]
                 current[st["obj"]] = cc
             cc = dict(cc)
+            cc["mesh"] = dict(c["meshes"][cc["mesh_id"]], V=cur_V[cc["mesh_id"]])   # the geometry at that moment
             cc["session"] = {"meshes": c["meshes"], "steps": c["steps"], "object": k}
             out_c.append(cc)
             out_o.append(r)
@@ -780,7 +817,7 @@ def oracle(case, res):
     elif w == "length":
         wt = res["len_float"]
     else:
-        wt = [float(x) for x in res["custom"]]
+        wt = [float(x) for x in (res.get("custom_float") or res["custom"])]
     T = [tuple(e) for e in res["edges"]]
     eid = {e: i for i, e in enumerate(E)}
     if len(set(T)) != len(T):
@@ -1002,9 +1039,9 @@ def classify(case, msg):
 # ====================================================================== the check
 def run(ctx):
     quick = ctx.tier == "quick"
-    n_rand = 400 if quick else 14000
+    n_rand = 330 if quick else 14000
     n_sessions = 45 if quick else 1200
-    n_roots = 180 if quick else 3000
+    n_roots = 150 if quick else 3000
     ctx.rule = ("meshes built through RawMeshData: polylines (random graphs incl. empty, paths, cycles, two components, "
                 "isolated vertices), oriented manifold surfaces (tri/quad/mixed grids, tetrahedron, octahedron, cube, tori, "
                 "fans, single polygons; 1-3 pieces, random face deletions, isolated vertices, dangling explicit edges), "
@@ -1019,7 +1056,12 @@ def run(ctx):
                 "pre-existing 'length' edge attribute with arbitrary values; sessions: 2-5 tree/forest objects built in one "
                 "interpreter on shared / different meshes, half of them without their optional arguments, the caller adding "
                 "ids to the exclusion sets of earlier objects in between - each object is checked against the exclusions it "
-                "was given and re-inspected at the end")
+                "was given and re-inspected at the end; vertices moved between objects; objects re-rooted / given more cuts and "
+                "run again as obj() or obj.compute(), sometimes after a run that raises; call forms positional / keyword / "
+                "mixed; roots as int / numpy int32, int64, uint8; exclusion sets of python or numpy ints or frozenset; flags as "
+                "bool / numpy.bool_ / 0-1; custom weights as float / int / float32 / float64 scaled by 2^-23 .. 2^130; "
+                "traverse called positionally, by keyword and with its default; a few polylines with > 256 vertices; surfaces "
+                "in both orientations, tetrahedra in any vertex order, all-coincident vertices")
     ctx.assumptions += [
         "elements are 0..n-1; the model receives the neighbour slots of every element as the implementation's own public "
         "connectivity queries return them (order included); the oracle rebuilds the adjacency from mesh.edges/faces/cells",
@@ -1043,6 +1085,20 @@ def run(ctx):
     cases += [gen_case(ctx.rng, big and k % 10 == 0) for k in range(n_rand)]
     cases += all_roots_cases(ctx.rng, n_roots)
     cases += [gen_session(ctx.rng) for _ in range(n_sessions)]
+    for _ in range(4 if quick else 60):
+        mesh = gen_polyline(ctx.rng, long=True)
+        nvx = len(mesh["V"])
+        what = ctx.rng.choice(["edge_tree", "kruskal", "edge_forest"])
+        c = {"mesh": mesh, "what": what, "kind": "edge", "read_order": ctx.rng.randrange(12), "calls": 1,
+             "root_repr": ctx.rng.choice(["int", "int64", "int32"])}
+        if what == "edge_tree":
+            c.update(op="tree", root=ctx.rng.randrange(256, nvx), avoid_boundary=False,
+                     excl=sorted(ctx.rng.sample(range(nvx), 3)) + [nvx - 2])
+        elif what == "kruskal":
+            c.update(op="kruskal", root=ctx.rng.randrange(256, nvx), avoid_boundary=False, weights=ctx.rng.choice(["one", "length"]))
+        else:
+            c.update(op="forest", excl=None)
+        cases.append(c)
     if not quick:
         # support only (bounded): every graph on <= 4 vertices as a polyline, every root
         for nvx in range(1, 5):
@@ -1129,9 +1185,15 @@ def run(ctx):
         ctx.count("compute() called %d time(s)" % c.get("calls", 1))
         if c["op"] in ("tree", "kruskal") and c.get("root") is not None:
             ctx.count("root given as " + c.get("root_repr", "int"))
+        ctx.count("call form " + c.get("call_form", "mixed"))
+        if c.get("excl") is not None:
+            ctx.count("exclusion set as " + c.get("excl_repr", "set"))
+        if isinstance(c.get("weights"), dict):
+            ctx.count("custom weights as %s, scale 2^%s" % (c["weights"].get("num", "float"), c["weights"].get("scale_exp", 0)))
         ctx.case_seen([c["mesh"]["V"], c["mesh"]["E"], c["mesh"]["F"], c["mesh"]["C"], c["op"], c["kind"], c.get("root"),
                        c.get("excl"), c.get("avoid_boundary"), c.get("weights") if isinstance(c.get("weights"), str) else "custom",
-                       c.get("pre"), c["mesh"].get("pre_V"), c.get("read_order"), c.get("calls", 1), c.get("omit_optional"), c.get("root_repr"),
+                       c.get("pre"), c["mesh"].get("pre_V"), c.get("read_order"), c.get("calls", 1), c.get("omit_optional"), c.get("root_repr"), c.get("call_form"), c.get("excl_repr"),
+                       c.get("flag_repr"),
                        json.dumps(c["session"]["steps"]) if c.get("session") else None],
                       nontrivial=nontriv,
                       sample={"op": c["what"], "mesh": c["mesh"]["shape"], "root": c.get("root"),
